@@ -28,3 +28,11 @@ Theorem c12_accept_bounds : forall bs z, load_bytes bs = OK (Some z) ->
   z_trans z <> [] /\ Forall (fun tr => - 2 ^ 59 <= tr_time tr <= 2 ^ 60) (z_trans z).
 Proof. exact accept_bounds_lemma. Qed.
 Print Assumptions c12_accept_bounds.
+
+(* TOTALITY of the loader's logic: for EVERY list of bytes the modelled Load()
+   returns accept or reject - it never reads out of bounds, never reads an
+   unset field, never overflows a 64-bit integer, never violates a search
+   precondition and never runs out of the stated loop fuel. *)
+Theorem c12_load_total : forall bs, all_bytes bs = true -> exists r, load_bytes bs = OK r.
+Proof. exact load_total_bytes_lemma. Qed.
+Print Assumptions c12_load_total.
